@@ -47,6 +47,10 @@ class K2(K1):
     pass
 
 
+class K4(K2):
+    pass
+
+
 class K3:
     __init__, __eq__, __hash__, __repr__ = K1.__init__, K1.__eq__, K1.__hash__, K1.__repr__
 
